@@ -801,3 +801,62 @@ Proof.
   destruct (trackTime p2); [|reflexivity].
   destruct (updateTimeUsed now p2) as [p3 t]. destruct t; reflexivity.
 Qed.
+
+(* ---- the clock is looked at often enough ----
+   A context that tracks time reads the clock whenever its CPU counter passes nextThr, which is then moved 10000
+   ticks ahead.  A new context starts with nextThr = 0 (before the repair "fix: a new context's first time check is
+   not delayed" it inherited the parent's threshold, on the parent's CPU scale: a child with a 50 ms limit was not
+   checked until it had used as much CPU as its parent). *)
+Definition thr_ok (c : ctx) : Prop := nextThr c <= cpu (used c) + 10000.
+
+Lemma pushCtx_thr now d p : nextThr (pushCtx now d p) = 0 /\ cpu (used (pushCtx now d p)) = 0.
+Proof. unfold pushCtx. cbn. split; reflexivity. Qed.
+
+Lemma u64_le_self z : 0 <= z -> 0 <= u64 z <= z.
+Proof. intros H. unfold u64. split; [apply Z.mod_pos_bound; unfold W; lia | apply Z.mod_le; [exact H | unfold W; lia]]. Qed.
+
+Local Opaque u64.
+
+Theorem child_clock_read_at_first_request now0 d p now amt c' :
+  let c := pushCtx now0 d p in
+  trackTime c = true -> 0 <= amt ->
+  requireCPU now amt c = ROk c' ->
+  ms (used c') = u64 (now - now0) /\ thr_ok c'.
+Proof.
+  intros c Ht Ha. unfold requireCPU.
+  assert (Htc : trackCpu c = true).
+  { unfold c, pushCtx in *. cbn in *. rewrite Ht. apply orb_true_r. }
+  rewrite Htc, Ht. cbn [negb].
+  destruct (hard_stop c && live c); [discriminate|].
+  destruct (atLimit _ _ && live c); [discriminate|].
+  assert (Hthr : nextThr c = 0) by apply pushCtx_thr.
+  assert (Hu : cpu (used c) = 0) by apply pushCtx_thr.
+  rewrite Hthr, Hu. cbn [andb].
+  pose proof (u64_le_self (0 + amt) ltac:(lia)) as Hx.
+  assert (Hle : (0 <=? u64 (0 + amt)) = true) by (apply Z.leb_le; lia).
+  rewrite Hle.
+  unfold updateTimeUsed.
+  match goal with |- context [if ?b then _ else _] => destruct b end; [discriminate|].
+  intros H; inversion H; subst; clear H. split.
+  - unfold c, pushCtx. cbn. reflexivity.
+  - unfold thr_ok. cbn. pose proof (u64_le_self amt Ha). pose proof (u64_le_self (u64 amt + 10000) ltac:(lia)). lia.
+Qed.
+
+(* in general: one granted request keeps the threshold within 10000 ticks of the counter (no wrap-around) *)
+Theorem thr_ok_step now amt c c' :
+  trackTime c = true -> thr_ok c -> 0 <= amt -> 0 <= cpu (used c) -> cpu (used c) + amt < W ->
+  requireCPU now amt c = ROk c' -> thr_ok c'.
+Proof.
+  intros Ht Hok Ha Hu Hw. unfold requireCPU.
+  destruct (negb (trackCpu c)); [intros H; inversion H; subst; exact Hok|].
+  destruct (hard_stop c && live c); [discriminate|].
+  destruct (atLimit _ _ && live c); [discriminate|].
+  rewrite Ht. cbn [andb].
+  rewrite (u64_add_small _ _ Hu Ha Hw).
+  destruct (nextThr c <=? cpu (used c) + amt) eqn:E.
+  - unfold updateTimeUsed.
+    match goal with |- context [if ?b then _ else _] => destruct b end; [discriminate|].
+    intros H; inversion H; subst; clear H. unfold thr_ok. cbn.
+    pose proof (u64_le_self (cpu (used c) + amt + 10000) ltac:(lia)). lia.
+  - intros H; inversion H; subst; clear H. unfold thr_ok in *. cbn. apply Z.leb_gt in E. lia.
+Qed.
